@@ -487,10 +487,27 @@ func (ref *Node) DoNewChild(r node.ChildRequest) (node.Node, error) {
 		return nil, err
 	}
 	if meta.IsList(r.Meta) && r.Selection.Path.Meta != r.Meta {
-		return ref.NewList(r.Meta, obj.Interface(), ref.onListUpdate(r.Meta.(*meta.List)))
+		return ref.newOwnedList(r.Meta.(*meta.List), obj)
 	}
 
 	return ref.New(r.Meta, obj.Interface())
+}
+
+// newOwnedList is NewList for a list held by this node's container: the list handler
+// can read the list again from there
+func (ref *Node) newOwnedList(m *meta.List, obj reflect.Value) (node.Node, error) {
+	n, err := ref.NewList(m, obj.Interface(), ref.onListUpdate(m))
+	if err != nil {
+		return nil, err
+	}
+	if listNode, isNode := n.(*Node); isNode {
+		if slice, isSlice := listNode.l.(*sliceAsList); isSlice {
+			slice.current = func() (reflect.Value, error) {
+				return ref.readValue(m)
+			}
+		}
+	}
+	return n, nil
 }
 
 func (ref *Node) onListUpdate(m *meta.List) NodeListUpdate {
@@ -530,7 +547,7 @@ func (ref *Node) DoGetChild(r node.ChildRequest) (node.Node, error) {
 	}
 	// requests made by exists() carry no selection
 	if meta.IsList(r.Meta) && (r.Selection == nil || r.Selection.Path.Meta != r.Meta) {
-		return ref.NewList(r.Meta, obj.Interface(), ref.onListUpdate(r.Meta.(*meta.List)))
+		return ref.newOwnedList(r.Meta.(*meta.List), obj)
 	}
 	return ref.New(r.Meta, obj.Interface())
 }
